@@ -206,7 +206,7 @@ def gen_table(rng, n, tier):
     cases = []
     for k in range(n):
         g = gen_graph(rng, small=(k % 2 == 0))
-        cut = rng.choice([0, 1, 2, 3, 5, 8, 13, 0.5, 2.5, 1e300])
+        cut = rng.choice([0, 1, 2, 3, 5, 8, 13, 0.5, 2.5, 1e300, -1, -2.5])      # a negative cut-off: no distance is that small, the table is empty
         cases.append({'edges': g, 'cut': cut, 'pre': rand_pre(rng, True), 'ids': rng.choice(['int', 'int', 'str', 'blank'])})
     return cases
 
